@@ -5,13 +5,13 @@ package main
 // small entailment procedure over linear integer facts.
 
 import (
-	"os"
-	"strconv"
 	"fmt"
 	"go/constant"
 	"go/token"
 	"go/types"
+	"os"
 	"sort"
+	"strconv"
 	"strings"
 
 	"golang.org/x/tools/go/ssa"
@@ -59,11 +59,12 @@ func (l Lin) scale(k int64) Lin {
 	return r
 }
 func (l Lin) addc(c int64) Lin { r := l.clone(); r.c += c; return r }
-func (l Lin) isConst() bool   { return len(l.t) == 0 }
+func (l Lin) isConst() bool    { return len(l.t) == 0 }
 func (l Lin) eq(o Lin) bool {
 	d := l.sub(o)
 	return len(d.t) == 0 && d.c == 0
 }
+
 // key is a cheap canonical rendering used for de-duplication.
 func (l Lin) key() string {
 	ks := make([]string, 0, len(l.t))
@@ -145,21 +146,21 @@ type FuncInfo struct {
 	reach map[*ssa.BasicBlock]map[*ssa.BasicBlock]bool // reach[a][b]: path of ≥1 edge from a to b
 	lins  map[ssa.Value]Lin
 	// writers of a field inside this function (stores and calls that may store)
-	writers map[*types.Var][]ssa.Instruction
-	wdone   bool
-	instrIx map[ssa.Instruction]int
-	loops   []*Loop
-	phis    []*ssa.Phi
-	av      map[string]ssa.Value
-	vers    map[*ssa.UnOp]string
-	lemmas  []Fact
+	writers    map[*types.Var][]ssa.Instruction
+	wdone      bool
+	instrIx    map[ssa.Instruction]int
+	loops      []*Loop
+	phis       []*ssa.Phi
+	av         map[string]ssa.Value
+	vers       map[*ssa.UnOp]string
+	lemmas     []Fact
 	lemmasDone bool
-	proveMemo map[string]int
-	budget  int // remaining prover steps of the current top-level query
-	nested  int
-	loadAtoms map[string]ssa.Value
-	ra      map[[2]*ssa.BasicBlock]map[*ssa.BasicBlock]bool
-	noAxioms int // 0 unknown, 1 axioms allowed, 2 not allowed
+	proveMemo  map[string]int
+	budget     int // remaining prover steps of the current top-level query
+	nested     int
+	loadAtoms  map[string]ssa.Value
+	ra         map[[2]*ssa.BasicBlock]map[*ssa.BasicBlock]bool
+	noAxioms   int // 0 unknown, 1 axioms allowed, 2 not allowed
 }
 
 func (c *Ctx) info(fn *ssa.Function) *FuncInfo {
@@ -212,8 +213,8 @@ func (fi *FuncInfo) instrReaches(a, b ssa.Instruction) bool {
 // ---------------------------------------------------------------- loops
 
 type Loop struct {
-	Header *ssa.BasicBlock
-	Blocks map[*ssa.BasicBlock]bool
+	Header  *ssa.BasicBlock
+	Blocks  map[*ssa.BasicBlock]bool
 	Latches []*ssa.BasicBlock
 }
 
@@ -1910,6 +1911,7 @@ var axiomLower = map[string]int64{
 	".WindowSize":  0,
 	".ShrinkSize":  0,
 	".bucketSize":  1,
+	".BucketSize":  1,
 }
 
 func axiomFacts(atom string) []Fact {
@@ -2182,7 +2184,6 @@ func (fi *FuncInfo) proveCheap(goal Lin, conds []Cond, extra []Fact) bool {
 	return fi.proveLE0(goal, conds, extra, map[string]bool{}, 0)
 }
 
-
 // atomValue maps an atom (possibly wrapped in len()/cap()) to the SSA value it names.
 func (fi *FuncInfo) atomValue(a string) ssa.Value {
 	name := a
@@ -2223,11 +2224,137 @@ func (fi *FuncInfo) primeLoopAtoms(l Lin, lp *Loop) Lin {
 	return out
 }
 
-
 // axioms: the Verify-established ranges may be used only in code that runs
 // on a verified configuration. Inside the configuration methods themselves
 // (SetDefaults, Verify, …: receiver is a config type) and inside the
 // initialisers that call them, the fields may still hold unverified values.
+// fieldAliases maps an unexported integer struct field to the exported
+// configuration field it is a copy of: every store to it stores (a conversion
+// of) a load of that configuration field, directly or through parameters at
+// all static call sites. Private names (inputLen, bucketSize, …) therefore
+// carry no meaning for the analysis.
+func (c *Ctx) fieldAliases() map[*types.Var]string {
+	if c.aliases != nil {
+		return c.aliases
+	}
+	c.aliases = map[*types.Var]string{}
+	cand := map[*types.Var]map[string]bool{}
+	var origin func(v ssa.Value, fn *ssa.Function, depth int) string
+	origin = func(v ssa.Value, fn *ssa.Function, depth int) string {
+		v = stripConv(v)
+		switch x := v.(type) {
+		case *ssa.UnOp:
+			if x.Op == token.MUL {
+				if fa, ok := x.X.(*ssa.FieldAddr); ok {
+					st := derefStruct(fa.X.Type())
+					fld := st.Field(fa.Field)
+					if fld.Exported() && isIntType(fld.Type()) {
+						return fld.Name()
+					}
+					if a, ok := c.aliases[fld]; ok {
+						return a
+					}
+				}
+			}
+		case *ssa.Field:
+			if st, ok := x.X.Type().Underlying().(*types.Struct); ok {
+				fld := st.Field(x.Field)
+				if fld.Exported() && isIntType(fld.Type()) {
+					return fld.Name()
+				}
+			}
+		case *ssa.Parameter:
+			if depth > 3 {
+				return ""
+			}
+			idx := -1
+			for i, p := range fn.Params {
+				if p == x {
+					idx = i
+				}
+			}
+			res := ""
+			n := 0
+			for _, g := range c.allFuncs {
+				for _, b := range g.Blocks {
+					for _, in := range b.Instrs {
+						call, ok := in.(ssa.CallInstruction)
+						if !ok || call.Common().StaticCallee() != fn || idx >= len(call.Common().Args) {
+							continue
+						}
+						n++
+						o := origin(call.Common().Args[idx], g, depth+1)
+						if o == "" || (res != "" && o != res) {
+							return ""
+						}
+						res = o
+					}
+				}
+			}
+			if n == 0 {
+				return ""
+			}
+			return res
+		}
+		return ""
+	}
+	for pass := 0; pass < 2; pass++ {
+		for _, fn := range c.allFuncs {
+			if fn.Pkg != c.lz {
+				continue
+			}
+			for _, b := range fn.Blocks {
+				for _, in := range b.Instrs {
+					st, ok := in.(*ssa.Store)
+					if !ok {
+						continue
+					}
+					fa, ok := st.Addr.(*ssa.FieldAddr)
+					if !ok {
+						continue
+					}
+					fld := derefStruct(fa.X.Type()).Field(fa.Field)
+					if fld.Exported() || !isIntType(fld.Type()) {
+						continue
+					}
+					if cand[fld] == nil {
+						cand[fld] = map[string]bool{}
+					}
+					cand[fld][origin(st.Val, fn, 0)] = true
+				}
+			}
+		}
+		for fld, set := range cand {
+			if len(set) == 1 {
+				for o := range set {
+					if o != "" {
+						c.aliases[fld] = o
+					}
+				}
+			}
+		}
+		cand = map[*types.Var]map[string]bool{}
+	}
+	return c.aliases
+}
+
+// fieldNameOfAtom: the (alias-resolved) field name an atom's load reads, "" if it is not a field load.
+func (fi *FuncInfo) fieldNameOfAtom(atom string) string {
+	v := fi.atomValue(atom)
+	ld, ok := v.(*ssa.UnOp)
+	if !ok || ld.Op != token.MUL {
+		return ""
+	}
+	f := fieldOfAddr(ld.X)
+	if f == nil {
+		return ""
+	}
+	if a, ok := fi.ctx.fieldAliases()[f]; ok {
+		return a
+	}
+	return f.Name()
+}
+
 func (fi *FuncInfo) axioms(atom string) []Fact {
 	if fi.noAxioms == 0 {
 		fi.noAxioms = 1
@@ -2235,6 +2362,16 @@ func (fi *FuncInfo) axioms(atom string) []Fact {
 		name := fn.Name()
 		if name == "init" || name == "Init" || name == "NewParser" || name == "NewDecoder" || name == "SetDefaults" || name == "Verify" {
 			fi.noAxioms = 2
+		}
+		// (by role as well: a function that itself completes or verifies a configuration)
+		for _, b := range fn.Blocks {
+			for _, in := range b.Instrs {
+				if call, ok := in.(ssa.CallInstruction); ok {
+					if cl := call.Common().StaticCallee(); cl != nil && cl.Signature.Recv() != nil && (cl.Name() == "SetDefaults" || cl.Name() == "Verify") {
+						fi.noAxioms = 2
+					}
+				}
+			}
 		}
 		if recv := fn.Signature.Recv(); recv != nil {
 			t := recv.Type()
@@ -2249,7 +2386,18 @@ func (fi *FuncInfo) axioms(atom string) []Fact {
 	if fi.noAxioms == 2 {
 		return nil
 	}
-	return axiomFacts(atom)
+	if fs := axiomFacts(atom); fs != nil {
+		return fs
+	}
+	// private copies of configuration fields inherit the range of the field they copy
+	if !strings.HasPrefix(atom, "len(") && !strings.HasPrefix(atom, "cap(") {
+		if name := fi.fieldNameOfAtom(atom); name != "" {
+			if lo, ok := axiomLower["."+name]; ok {
+				return []Fact{{linAtom(atom).scale(-1).addc(lo), LE}}
+			}
+		}
+	}
+	return nil
 }
 
 var proverBudget = func() int {
@@ -2373,7 +2521,6 @@ func (fi *FuncInfo) proveByCasesFrom(goal Lin, at *ssa.BasicBlock, conds0 []Cond
 	}
 	return true
 }
-
 
 // spilledParam: cell is an Alloc of pointer type that is stored exactly once,
 // with a parameter of the function, and no closure capturing the cell stores
